@@ -303,7 +303,7 @@ func optString(o r69.Options) string {
 // parents: all token sequences of length 1..maxLen over names (incl. ones that
 // need ~0/~1), small indices, and "-" as last token.
 func SigmaEnsure(maxLen int, vals []*rj.Value) []r69.Op {
-	toks := []string{"a", "b", "a/b", "m~~n", "0", "1", "2"}
+	toks := []string{"a", "b", "a/b", "m~~n", "0", "1", "3"}
 	var ops []r69.Op
 	var rec func(prefix []string)
 	rec = func(prefix []string) {
